@@ -133,7 +133,7 @@ func ccToOps(recs []ccRec) []porcupine.Operation {
 
 // ccJudge checks one key's history; returns "" / "illegal" / "unknown".
 func ccJudge(recs []ccRec) string {
-	switch porcupine.CheckOperationsTimeout(ccModel, ccToOps(recs), 5*time.Second) {
+	switch porcupine.CheckOperationsTimeout(ccModel, ccToOps(recs), 2*time.Second) {
 	case porcupine.Illegal:
 		return "illegal"
 	case porcupine.Unknown:
@@ -222,6 +222,14 @@ func (r *ccRun) doOp(g int, op ccOp) {
 		rec.Val, rec.Ok = v, true
 		if !rec.Loaded {
 			r.hits[g]++
+		} else {
+			// the flight lasts until its leader's Get returns: until then later callers can still join it
+			r.ldMu.Lock()
+			if iv, ok := r.ldIvs[v]; ok {
+				iv[1] = rec.Ret
+				r.ldIvs[v] = iv
+			}
+			r.ldMu.Unlock()
 		}
 	case "del":
 		rec.Kind = "del"
@@ -394,8 +402,14 @@ func execConc(c ccCase, x *verifkit.Ctx, lin, counters bool) (fail *verifkit.Fai
 			keys = append(keys, k)
 		}
 		sort.Ints(keys)
+		judgeStart := time.Now()
 		for _, k := range keys {
 			recs := byKey[k]
+			if time.Since(judgeStart) > 8*time.Second {
+				x.Class("judge-budget-exhausted")
+				verifkit.AddCount("keys_not_judged", 1)
+				continue
+			}
 			writes := 0
 			for _, a := range recs {
 				if a.Kind == "set" || a.Kind == "del" || a.Loaded {
@@ -562,8 +576,31 @@ func genConc(forCounters bool) func(t *rapid.T) ccCase {
 				return ccOp{Op: rapid.SampledFrom([]string{"len", "size", "stats"}).Draw(t, "view"), Pert: pert}
 			}
 		})
-		for g := 0; g < G; g++ {
-			c.Progs = append(c.Progs, rapid.SliceOfN(opGen, 10, maxOps).Draw(t, "prog"))
+		if !forCounters && rapid.IntRange(0, 3).Draw(t, "readHeavy") == 0 {
+			// read-heavy programs under eviction pressure: many hits/loads racing eviction and entry reuse
+			c.MaxSize = rapid.SampledFrom([]int{8, 64}).Draw(t, "rhMaxsize")
+			c.Keys = 3 * c.MaxSize
+			rh := rapid.Custom(func(t *rapid.T) ccOp {
+				k := rapid.IntRange(0, c.Keys-1).Draw(t, "k")
+				switch op := rapid.IntRange(0, 9).Draw(t, "op"); {
+				case op < 7:
+					if c.Loading {
+						return ccOp{Op: "lget", K: k}
+					}
+					return ccOp{Op: "get", K: k}
+				case op < 9:
+					return ccOp{Op: "set", K: k}
+				default:
+					return ccOp{Op: "del", K: k}
+				}
+			})
+			for g := 0; g < 8; g++ {
+				c.Progs = append(c.Progs, rapid.SliceOfN(rh, 150, 400).Draw(t, "prog"))
+			}
+		} else {
+			for g := 0; g < G; g++ {
+				c.Progs = append(c.Progs, rapid.SliceOfN(opGen, 10, maxOps).Draw(t, "prog"))
+			}
 		}
 		c.StallUs = rapid.SliceOfN(rapid.SampledFrom([]int{0, 20, 200, 1000}), 0, 4).Draw(t, "stalls")
 		return c
@@ -580,7 +617,7 @@ func TestVerifC01(t *testing.T) {
 		ID: "C01", Gen: genConc(false), Nondet: true, Rejudge: ccRejudge,
 		Exec:        func(c ccCase, x *verifkit.Ctx) *verifkit.Failure { return execConc(c, x, true, false) },
 		Rule:        "C01: rapid draws the configuration (plain/loading x entry pool x doorkeeper x MaxSize in {1,2,3,8,64,1024}), 2..8 goroutine programs of 10..80 operations (Set, SetWithTTL 1 h or 1-3 ms, Get, loading Get, Delete, Range, size views) over 1..6 contended keys or 4xMaxSize keys, per-operation Gosched perturbation and policy-lock stalls; the recorded history is checked per key with porcupine against a nondeterministic sequential map model (a miss is always legal and makes the key absent; a hit must return the current value; a loading Get that joined a running load receives its result); non-trivial = some key has a write whose interval overlaps a read",
-		Assumptions: append([]string{"porcupine timeout 5 s per key; 'unknown' is counted, never reported as a violation"}, ccAssumptions...),
+		Assumptions: append([]string{"porcupine timeout 2 s per key and 8 s per history; 'unknown' / not judged is counted, never reported as a violation"}, ccAssumptions...),
 	})
 }
 
@@ -662,5 +699,171 @@ func TestVerifC19(t *testing.T) {
 		},
 		Rule:        "C19: the C01 program generator with the entry pool off and a removal listener installed, on plain, loading and hybrid stores, with SaveCache, Wait, Range, Len, EstimatedSize, Stats, hybrid Get/Delete and (in a third of the cases) a Close sprinkled into the goroutine programs; the binary is built with -race and any 'WARNING: DATA RACE' in its output is the violation; non-trivial = at least two goroutines and at least one of SaveCache / Range / Close / Wait in the programs",
 		Assumptions: []string{"the race detector only sees the interleavings that are executed", "the harness's own shared state is per-goroutine or atomic/mutex protected"},
+	})
+}
+
+// C05 (concurrent tier) — every key is stored exactly once (fresh keys), so it has exactly
+// one incarnation: at the end it is either resident or was notified exactly once, with
+// REMOVED only if the Delete API took it.
+
+type c05cCase struct {
+	MaxSize    int   `json:"maxsize"`
+	Goroutines int   `json:"goroutines"`
+	PerG       int   `json:"per_goroutine"` // fresh keys stored by each goroutine
+	Lag        int   `json:"lag"`           // each goroutine deletes the key it stored Lag insertions earlier
+	TTLEvery   int   `json:"ttl_every"`     // every n-th key gets a 1-3 ms TTL (0 = none)
+	Pert       int   `json:"pert"`
+	StallUs    []int `json:"stall_us,omitempty"`
+}
+
+func genC05c(t *rapid.T) c05cCase {
+	c := c05cCase{
+		MaxSize:    rapid.SampledFrom([]int{4, 16, 64, 256}).Draw(t, "maxsize"),
+		Goroutines: rapid.IntRange(2, 8).Draw(t, "goroutines"),
+		PerG:       rapid.SampledFrom([]int{200, 1000, 4000}).Draw(t, "perG"),
+		TTLEvery:   rapid.SampledFrom([]int{0, 0, 2, 5}).Draw(t, "ttlEvery"),
+		Pert:       rapid.SampledFrom([]int{0, 0, 1, 3}).Draw(t, "pert"),
+	}
+	// deletes land around the moment the policy evicts the same key: lag ~ capacity share of one goroutine
+	base := c.MaxSize / c.Goroutines
+	c.Lag = base + rapid.IntRange(-base/2-1, base+4).Draw(t, "lagJitter")
+	if c.Lag < 0 {
+		c.Lag = 0
+	}
+	c.StallUs = rapid.SliceOfN(rapid.SampledFrom([]int{0, 50, 500}), 0, 3).Draw(t, "stalls")
+	return c
+}
+
+func execC05c(c c05cCase, x *verifkit.Ctx) (fail *verifkit.Failure) {
+	if VerifNoMaintenance.Load() {
+		panic("needs real maintenance")
+	}
+	vkRealTime()
+	type note struct {
+		n       int
+		reasons [3]int
+		val     int64
+	}
+	var mu sync.Mutex
+	notes := map[int]*note{}
+	s := NewStore[int, int64](&StoreOptions[int, int64]{MaxSize: int64(c.MaxSize), Listener: func(k int, v int64, r RemoveReason) {
+		mu.Lock()
+		nt := notes[k]
+		if nt == nil {
+			nt = &note{}
+			notes[k] = nt
+		}
+		nt.n++
+		nt.reasons[r]++
+		nt.val = v
+		mu.Unlock()
+	}})
+	defer s.Close()
+	stored := make([][]int, c.Goroutines)
+	deletedResident := make([]map[int]bool, c.Goroutines)
+	var wg sync.WaitGroup
+	start := make(chan struct{})
+	for g := 0; g < c.Goroutines; g++ {
+		g := g
+		deletedResident[g] = map[int]bool{}
+		wg.Add(1)
+		go func() {
+			defer wg.Done()
+			<-start
+			for i := 0; i < c.PerG; i++ {
+				k := g*10_000_000 + i
+				ttl := time.Duration(0)
+				if c.TTLEvery > 0 && i%c.TTLEvery == 0 {
+					ttl = time.Duration(1+i%3) * time.Millisecond
+				}
+				for p := 0; p < c.Pert; p++ {
+					runtime.Gosched()
+				}
+				if s.Set(k, int64(k)*7+1, 1, ttl) {
+					stored[g] = append(stored[g], k)
+				}
+				if j := i - c.Lag; j >= 0 && i%2 == 0 {
+					s.Delete(g*10_000_000 + j)
+				}
+			}
+		}()
+	}
+	close(start)
+	for _, us := range c.StallUs {
+		s.policyMu.Lock()
+		t0 := time.Now()
+		for time.Since(t0) < time.Duration(us)*time.Microsecond {
+			runtime.Gosched()
+		}
+		s.policyMu.Unlock()
+		runtime.Gosched()
+	}
+	done := make(chan struct{})
+	go func() { wg.Wait(); close(done) }()
+	select {
+	case <-done:
+	case <-time.After(60 * time.Second):
+		f := verifkit.Failf("conc/hang", "writers did not finish within 60 s")
+		f.Sticky = true
+		return f
+	}
+	s.Wait()
+	resident := map[int]bool{}
+	for _, sh := range s.shards {
+		tk := sh.mu.RLock()
+		for k := range sh.hashmap {
+			resident[k] = true
+		}
+		sh.mu.RUnlock(tk)
+	}
+	mu.Lock()
+	defer mu.Unlock()
+	total, notified, overlaps := 0, 0, 0
+	for g := range stored {
+		for _, k := range stored[g] {
+			total++
+			nt := notes[k]
+			n := 0
+			if nt != nil {
+				n = nt.n
+				notified += n
+			}
+			switch {
+			case resident[k] && n != 0:
+				return verifkit.Failf("notify-conc/resident-and-notified", "key %d is resident after Wait but was notified %d times (REMOVED %d, EVICTED %d, EXPIRED %d)", k, n, nt.reasons[REMOVED], nt.reasons[EVICTED], nt.reasons[EXPIRED])
+			case !resident[k] && n == 0:
+				return verifkit.Failf("notify-conc/lost", "key %d was stored, is no longer resident after Wait and was never notified", k)
+			case n > 1:
+				return verifkit.Failf("notify-conc/duplicate", "key %d (stored exactly once) was notified %d times: REMOVED %d, EVICTED %d, EXPIRED %d", k, n, nt.reasons[REMOVED], nt.reasons[EVICTED], nt.reasons[EXPIRED])
+			}
+			if nt != nil && nt.val != int64(k)*7+1 {
+				return verifkit.Failf("notify-conc/wrong-value", "key %d notified with value %d, it held %d", k, nt.val, int64(k)*7+1)
+			}
+			if nt != nil && (nt.reasons[EVICTED] > 0 || nt.reasons[EXPIRED] > 0) {
+				overlaps++
+			}
+		}
+	}
+	for k := range notes {
+		g, i := k/10_000_000, k%10_000_000
+		if g >= c.Goroutines || i >= c.PerG {
+			return verifkit.Failf("notify-conc/never-stored", "listener called for key %d which was never stored", k)
+		}
+	}
+	if total != len(resident)+notified {
+		return verifkit.Failf("notify-conc/conservation", "stored %d != resident %d + notifications %d", total, len(resident), notified)
+	}
+	x.ClassIf(c.TTLEvery > 0, "with-ttl")
+	if overlaps > 0 && c.Lag <= 2*c.MaxSize {
+		x.NonTrivial()
+	}
+	return nil
+}
+
+func TestVerifC05Conc(t *testing.T) {
+	verifkit.Run(t, verifkit.Spec[c05cCase]{
+		ID: "C05", Gen: genC05c, Exec: execC05c, Nondet: true,
+		Rule:        "C05 (concurrent tier): rapid draws MaxSize {4,16,64,256}, 2..8 goroutines each storing 200..4000 fresh keys (every key is stored exactly once, so it has one incarnation; optionally every n-th with a 1-3 ms TTL) and deleting the key it stored 'lag' insertions earlier, with lag drawn around the point where the policy evicts that key, Gosched perturbation and policy-lock stalls; after Wait every stored key is either resident or was notified exactly once with its value, no key is notified that was never stored, and stored == resident + notifications; non-trivial = some keys were evicted/expired while deletes of the same age were running",
+		Assumptions: ccAssumptions,
 	})
 }
